@@ -371,9 +371,14 @@ func (server *Server) readRequestBody(ctx *Context) (err error) {
 func (server *Server) callService(ctx *Context) {
 	var err error
 	if ctx.upgrade.Stream == openStream {
+		// Acknowledge before the handler runs: the handler may write at once, and the
+		// client takes the first frame of a new stream for the acknowledgement.
+		f, args := ctx.f, ctx.args
+		server.sendResponse(ctx)
 		go func() {
-			ctx.f.ValueCall(ctx.args)
+			f.ValueCall(args)
 		}()
+		return
 	} else if ctx.upgrade.Stream == streaming {
 		if streamCtx := ctx.ctx; streamCtx != nil {
 			value := GetBuffer(len(ctx.value))
